@@ -3,6 +3,7 @@ package main
 import (
 	"io/ioutil"
 	"log"
+	"sort"
 
 	"github.com/evolbioinfo/gotree/tree"
 )
@@ -55,5 +56,42 @@ func c05(c *Sexp) *Sexp {
 	}
 	d, audit := ObserveTree(t)
 	obs.List = append(obs.List, KV("err", A(errStr(operr))), KV("tree", d), KV("audit", audit))
+	switch c.Str("op") {
+	case "reroot", "unroot", "outgroup", "midpoint":
+		if operr == nil {
+			obs.List = append(obs.List, indexState(t)...)
+		}
+	}
 	return obs
+}
+
+// indexState observes the name index and the bitsets after an operation:
+//
+//	(tipidx ("name" ...))            keys of the tip-name index, sorted
+//	(tipstate (("name" T|F id) ...)) for every tip of Tips(): ExistsTip(name), TipIndex(name) (-1 on error)
+//	(bitsets (w ...))                for every branch of Edges(): width of its bitset, -1 when nil
+func indexState(t *tree.Tree) []*Sexp {
+	names := t.VerifTipIndexNames()
+	sort.Strings(names)
+	st := L()
+	for _, tip := range t.Tips() {
+		ex, err := t.ExistsTip(tip.Name())
+		if err != nil {
+			ex = false
+		}
+		id, err := t.TipIndex(tip.Name())
+		if err != nil {
+			id = -1
+		}
+		st.List = append(st.List, L(A(tip.Name()), B(ex), I(id)))
+	}
+	bs := L()
+	for _, e := range t.Edges() {
+		if e.Bitset() == nil {
+			bs.List = append(bs.List, I(-1))
+		} else {
+			bs.List = append(bs.List, I(int(e.Bitset().Len())))
+		}
+	}
+	return []*Sexp{KV("tipidx", Strs(names)), KV("tipstate", st), KV("bitsets", bs)}
 }
